@@ -35,6 +35,26 @@ def be_int(s, n):
     return tot
 
 
+def be_enc_of(it, z, n):
+    """n-byte big-endian encoding of z (0 <= z < 256**n): uninterpreted, ground contract instances"""
+    f = uf("be_enc", IntS, IntS, StringS)
+    g = uf("be_value", StringS, IntS)
+    r = f(z, z3.IntVal(n))
+    it.ctx.assume(z3.Length(r) == n)
+    it.ctx.assume(g(r) == z)
+    it.reg.note("big-endian integer <-> bytes (hex formatting + unhexlify, int(hexlify(b),16)): assumed mutually inverse")
+    return r
+
+
+def be_value_of(it, s):
+    f = uf("be_enc", IntS, IntS, StringS)
+    g = uf("be_value", StringS, IntS)
+    n = g(s)
+    it.ctx.assume(n >= 0)
+    it.ctx.assume(f(n, z3.Length(s)) == s)
+    return n
+
+
 def be4_of(it, z):
     """struct.pack('>L', z) for 0 <= z < 2**32: uninterpreted, with the ground instances of
     its assumed contract (4 bytes; unpack is its inverse) added at each use"""
@@ -184,13 +204,9 @@ def b_int(it, args, kw, fr):
             hx = getattr(v, "hex_of", None)
             if hx is not None:
                 # int(hexlify(b), 16) == big-endian value of b
-                n = hx[1]
-                if n is not None:
-                    return VInt(be_int(hx[0], n))
-                f = uf("be_value", StringS, IntS)
-                r = f(hx[0])
-                it.ctx.assume(r >= 0)
-                return VInt(r)
+                if it.ctx.branch(z3.Length(hx[0]) == 0):
+                    it.raise_("ValueError", VStr("invalid literal for int() with base 16: b''"))
+                return VInt(be_value_of(it, hx[0]))
         raise OutOfSubset("int(x, base)")
     if isinstance(v, VInt):
         return v
@@ -1025,6 +1041,14 @@ def install_default_models(reg):
         h = it.force(args[0])
         if not isinstance(h, VStr):
             it.raise_("TypeError")
+        hf = getattr(h, "hex_fmt", None)
+        if hf is not None:
+            # unhexlify(f"{x:0Nx}"): the N/2-byte big-endian encoding, provided x fits in N hex digits
+            xz, n = hf
+            if n % 2 == 0:
+                if it.ctx.branch(z3.Or(xz < 0, xz >= 16 ** n), "hexfmt-overflow"):
+                    raise OutOfSubset("hex formatting of a value that does not fit the field width")
+                return VStr(be_enc_of(it, xz, n // 2), "bytes")
         ok = uf("is_hex", StringS, BoolS)(h.z)
         if it.ctx.branch(z3.Not(ok), "unhexlify-fails"):
             it.raise_("binascii.Error")
